@@ -162,7 +162,7 @@ RESOLVER = {
     "C10": {"inv": ["C10", "C01", "C02", "C04", "C06"], "minv": ["C10"], "reps": (4, 8), "family": "none",
             "random": [("convcall", 3500, 35000), ("convert", 800, 8000)], "model": (600, 6000)},
     "C16": {"inv": ["C16", "C03"], "minv": ["C16"], "reps": (6, 12), "family": "C16", "random": [("wild", 800, 8000), ("general", 500, 5000)], "model": (300, 3000)},
-    "C13": {"inv": ["C13"], "reps": (2, 4), "family": "C13",
+    "C13": {"inv": ["C13"], "reps": (2, 4), "family": "C13", "life": True,
             "random": [("general", 2500, 25000), ("nosub", 1500, 15000), ("multi", 1000, 10000)]},
 }
 
